@@ -828,8 +828,6 @@ impl Overlay {
         #[cfg(nomt_verif)]
         crate::verif::point("lin", "overlay_commit.locked");
 
-        let marker = self.mark_committed();
-
         {
             let mut shared = nomt.shared.lock();
             if shared.root != self.prev_root() {
@@ -842,7 +840,9 @@ impl Overlay {
             shared.root = root;
             #[cfg(nomt_verif)]
             crate::verif::point("lin", "overlay_commit.root_swapped");
-            shared.last_commit_marker = Some(marker);
+            // Only an overlay that passed the check above counts as committed: marking it earlier
+            // would make the children of a rejected overlay look like a complete chain.
+            shared.last_commit_marker = Some(self.mark_committed());
         }
 
         if let Some(rollback_delta) = rollback_delta {
@@ -890,8 +890,6 @@ impl Overlay {
         #[cfg(nomt_verif)]
         crate::verif::point("lin", "overlay_try_commit.locked");
 
-        let marker = self.mark_committed();
-
         {
             let mut shared = nomt.shared.lock();
             if shared.root != self.prev_root() {
@@ -904,7 +902,9 @@ impl Overlay {
             shared.root = root;
             #[cfg(nomt_verif)]
             crate::verif::point("lin", "overlay_commit.root_swapped");
-            shared.last_commit_marker = Some(marker);
+            // Only an overlay that passed the check above counts as committed: marking it earlier
+            // would make the children of a rejected overlay look like a complete chain.
+            shared.last_commit_marker = Some(self.mark_committed());
         }
 
         if let Some(rollback_delta) = rollback_delta {
